@@ -81,12 +81,20 @@ class TreeRun:
         self.problems = []
         self.calls_seen = set()
         self.alloc_names = alloc_names
+        self.local_callable = {}      # role field -> local variable the callable is read into
 
         def on_call(name, args, node, st, sx):
             ln = line(node)
             if name is None:
                 via = fnptr_name(node)
                 role = self.roles.get(via)
+                if role is None:
+                    # a local holding the callable (`kd = tree->key_destroy_func;`, also after inlining renamed it)
+                    fp = strip_casts(node.get("fnptr"))
+                    rs = self.fn.resolve(fp) if fp is not None and fp["k"] == "ref" else None
+                    if rs is not None and rs["k"] == "member" and rs["field"] in self.roles:
+                        role = self.roles[rs["field"]]
+                        self.local_callable[rs["field"]] = via
                 if role == "compare":
                     # node expression of the comparison: second argument is load of fld(X, key)
                     k = norm(args[1])
@@ -175,6 +183,10 @@ class TreeRun:
         for p in self.fn.param_names():
             if p == via:
                 return st.env.get(p, ("p", p))
+        if via in st.env:
+            return st.env[via]           # a local holding the notifier (`key_destroy_func = tree->key_destroy_func;`)
+        if self.local_callable.get(via) in st.env:
+            return st.env[self.local_callable[via]]
         p0 = self.fn.param_names()[0]
         return st.load(("fld", ("p", p0), via))
 
